@@ -2634,7 +2634,9 @@ Box<ITV>::propagate_constraint_no_check(const Constraint& c) {
     // Constraint c is trivial: check if it is inconsistent.
     if (c_inhomogeneous_term < 0
         || (c_inhomogeneous_term == 0
-            && c_type != Constraint::NONSTRICT_INEQUALITY)) {
+            && c_type == Constraint::STRICT_INEQUALITY)
+        || (c_inhomogeneous_term > 0
+            && c_type == Constraint::EQUALITY)) {
       set_empty();
     }
     return;
